@@ -79,12 +79,6 @@ func chartNames(c *chart.Chart, at string, out *[]string) {
 	}
 }
 
-func (rc *runCtx) mark(kind, entry string) {
-	if rc.markers {
-		os.Lstat(fmt.Sprintf("/c16-mark/%s/%s/%d/%s", kind, rc.caseID, rc.idx, strings.ReplaceAll(entry, " ", "_")))
-	}
-}
-
 // observe runs one call into helm inside the sandbox and judges it: nothing outside the allowed
 // directories may change, and every exposed name must be a clean relative path.
 func (rc *runCtx) observe(sb *sandbox, entry string, tags []string, desc func() string, call func() ([]string, error)) (accepted bool, err error) {
@@ -94,9 +88,9 @@ func (rc *runCtx) observe(sb *sandbox, entry string, tags []string, desc func() 
 	oldWd, _ := os.Getwd()
 	os.Chdir(sb.Cwd)
 	var names []string
-	rc.mark("begin", entry)
+	rc.markSB("begin", entry, sb)
 	panicked := core.Guard(rc.res, entry, func() { names, err = call() })
-	rc.mark("end", entry)
+	rc.markSB("end", entry, sb)
 	os.Chdir(oldWd)
 	if hadTmp {
 		os.Setenv("TMPDIR", oldTmp)
